@@ -31,6 +31,8 @@ def seeds() -> list[bytes]:
     rng = random.Random(12)
     apdus = [raw for _s, raw in G.valid_apdus(rng, 0)][::6]
     out += examples(S.plausible_ldata_frames(apdus), 12, 14)
+    # A_Sec APDUs: valid, reserved algorithm, reserved service, too short
+    out += [S.asec_frame(0x29, True, scf, n) for scf in (0x10, 0x00, 0x20, 0x70, 0x11, 0x97) for n in (12, 13, 20)]
     seen, uniq = set(), []
     for f in out:
         f = bytes(f)
